@@ -193,6 +193,20 @@ theorem lowerE_field_inv {e : Expr} {i c : Nat} {code : Code} {v : Value} {c' : 
   obtain ⟨ce, ve, c1, h1, rfl, rfl, rfl⟩ := h
   exact ⟨ce, ve, c1, h1, rfl, rfl, rfl⟩
 
+/-- the pieces of a lowered record literal -/
+theorem lowerE_record_inv {perm : List Nat} {fs : Exprs} {c : Nat} {code : Code} {v : Value} {c' : Nat}
+    (h : lowerE (.record perm fs) c = some (code, v, c')) :
+    ∃ ca xs c1, lowerCtorArgs fs c = some (ca, xs, c1) ∧ permOk perm xs.length = true
+      ∧ code = ca ++ [.setDisc (.t c1) (.recd (List.replicate xs.length 0))] ++ storeFieldsAt (.t c1) perm xs
+      ∧ v = .move (.t c1) ∧ c' = c1 + 1 := by
+  simp only [lowerE, Option.bind_eq_bind, Option.bind_eq_some_iff] at h
+  obtain ⟨⟨ca, xs, c1⟩, h1, h2⟩ := h
+  by_cases hp : permOk perm xs.length = true
+  · simp [hp] at h2
+    obtain ⟨rfl, rfl, rfl⟩ := h2
+    exact ⟨ca, xs, c1, h1, hp, by simp, rfl, rfl⟩
+  · simp [hp] at h2
+
 /-- the pieces of a lowered `match` -/
 theorem lowerE_mtch_inv {s : Expr} {isOpt : Bool} {arms : Arms} {c : Nat} {code : Code} {v : Value} {c' : Nat}
     (h : lowerE (.mtch s isOpt arms) c = some (code, v, c')) :
@@ -320,6 +334,17 @@ theorem lowerE_mono : ∀ (e : Expr) (c : Nat) (code : Code) (v : Value) (c' : N
     have ⟨m1, b1⟩ := lowerE_mono e _ cr vr c1 h1
     have ⟨a1, _⟩ := atv_spec vr c1 b1
     exact ⟨by omega, trivial⟩
+  | .assignF x i e, c, code, v, c', h => by
+    simp [lowerE, Option.bind_eq_some_iff] at h
+    obtain ⟨ce, ve, c1, h1, _, rfl, rfl⟩ := h
+    have ⟨m1, _⟩ := lowerE_mono e _ ce ve c1 h1
+    exact ⟨by omega, trivial⟩
+  | .cassignF op x i e, c, code, v, c', h => by
+    simp [lowerE, Option.bind_eq_some_iff] at h
+    obtain ⟨_, cr, vr, c1, h1, _, rfl, rfl⟩ := h
+    have ⟨m1, b1⟩ := lowerE_mono e _ cr vr c1 h1
+    have ⟨a1, _⟩ := atv_spec vr c1 b1
+    exact ⟨by omega, trivial⟩
   | .ret e, c, code, v, c', h => by
     simp [lowerE, Option.bind_eq_some_iff] at h
     obtain ⟨ce, ve, c1, h1, _, rfl, rfl⟩ := h
@@ -350,9 +375,8 @@ theorem lowerE_mono : ∀ (e : Expr) (c : Nat) (code : Code) (v : Value) (c' : N
     have ⟨m1, b1⟩ := lowerE_mono e c ce ve c1 h1
     have ⟨a1, _⟩ := atv_spec ve c1 b1
     exact ⟨by omega, trivial⟩
-  | .record fs, c, code, v, c', h => by
-    simp [lowerE, Option.bind_eq_some_iff] at h
-    obtain ⟨ca, xs, c1, h1, _, rfl, rfl⟩ := h
+  | .record perm fs, c, code, v, c', h => by
+    obtain ⟨ca, xs, c1, h1, _, _, rfl, rfl⟩ := lowerE_record_inv h
     have ⟨m1, _⟩ := lowerCtorArgs_mono fs c ca xs c1 h1
     exact ⟨by omega, ⟨c1, rfl, by omega⟩⟩
   | .field e i, c, code, v, c', h => by
@@ -661,6 +685,14 @@ theorem lowerE_valueBound (e : Expr) (c : Nat) (code : Code) (v : Value) (c' : N
     simp [lowerE, Option.bind_eq_some_iff] at h
     obtain ⟨_, _, _, _, _, _, rfl, _⟩ := h
     simp [Value.vars] at hk
+  | assignF x i e1 =>
+    simp [lowerE, Option.bind_eq_some_iff] at h
+    obtain ⟨_, _, _, _, _, rfl, _⟩ := h
+    simp [Value.vars] at hk
+  | cassignF op x i e1 =>
+    simp [lowerE, Option.bind_eq_some_iff] at h
+    obtain ⟨_, _, _, _, _, _, rfl, _⟩ := h
+    simp [Value.vars] at hk
   | ret e1 =>
     simp [lowerE, Option.bind_eq_some_iff] at h
     obtain ⟨_, _, _, _, _, rfl, _⟩ := h
@@ -701,10 +733,9 @@ theorem lowerE_valueBound (e : Expr) (c : Nat) (code : Code) (v : Value) (c' : N
     simp [lowerE, Option.bind_eq_some_iff] at h
     obtain ⟨_, _, _, _, _, rfl, _⟩ := h
     obtain ⟨k'', hk', hlt⟩ := hm; cases hk'; simp [Value.vars] at hk; omega
-  | record fs =>
+  | record perm fs =>
     have hm := (lowerE_mono _ c code v c' h).2
-    simp [lowerE, Option.bind_eq_some_iff] at h
-    obtain ⟨_, _, _, _, _, rfl, _⟩ := h
+    obtain ⟨_, _, _, _, _, _, rfl, _⟩ := lowerE_record_inv h
     obtain ⟨k', hk', hlt⟩ := hm; cases hk'; simp [Value.vars] at hk; omega
   | field e1 i =>
     by_cases hv : ∃ x, e1 = .var x
@@ -846,35 +877,41 @@ theorem exec_storeFields {P : Prog} {k : Nat} {to : Var} : ∀ (xs : List Var) (
       have := ExecC.cons s1 hx1
       simpa [storeFields] using this
 
-/-- `record`: moving the materialised fields into the record, which is filled front to back -/
-theorem exec_storeFieldsR {P : Prog} {to : Var} : ∀ (xs : List Var) (fs : List Int) (pre : List Int) (σ : Store),
-    σ to = .recd pre → (∀ x ∈ xs, x ≠ to) → xs.map σ = fs.map Val.int →
-    ∃ σ1, ExecC P σ (storeFields to pre.length xs) [] (.normal σ1) ∧ σ1 to = .recd (pre ++ fs)
+/-- `record`: moving the materialised fields into the record, in the order in which they were
+    written, each into the field it was written for -/
+theorem exec_storeFieldsAt {P : Prog} {to : Var} : ∀ (perm : List Nat) (xs : List Var) (fs : List Int) (cur : List Int) (σ : Store),
+    σ to = .recd cur → (∀ p ∈ perm, p < cur.length) → (∀ x ∈ xs, x ≠ to) → xs.map σ = fs.map Val.int →
+    ∃ σ1, ExecC P σ (storeFieldsAt to perm xs) [] (.normal σ1) ∧ σ1 to = .recd (arrangeFrom cur perm fs)
       ∧ (∀ y, y ≠ to → σ1 y = σ y)
-  | [], fs, pre, σ, hσ, _, hm => by
+  | [], xs, fs, cur, σ, hσ, _, _, _ => by
+    refine ⟨σ, ?_, ?_, fun _ _ => rfl⟩
+    · cases xs <;> exact .nil
+    · cases fs <;> simpa [arrangeFrom] using hσ
+  | p :: ps, [], fs, cur, σ, hσ, _, _, hm => by
     cases fs with
-    | nil => exact ⟨σ, .nil, by simpa using hσ, fun _ _ => rfl⟩
+    | nil => exact ⟨σ, .nil, by simpa [arrangeFrom] using hσ, fun _ _ => rfl⟩
     | cons f fs => simp at hm
-  | x :: xs, fs, pre, σ, hσ, hne, hm => by
+  | p :: ps, x :: xs, fs, cur, σ, hσ, hp, hne, hm => by
     cases fs with
     | nil => simp at hm
     | cons f fs =>
       simp only [List.map_cons, List.cons.injEq] at hm
       obtain ⟨hx, hm'⟩ := hm
-      have hset : setPayload (σ to) pre.length f = some (.recd (pre ++ [f])) := by
-        rw [hσ]; simp [setPayload]
-      have s1 : ExecS P σ (.assignField to pre.length (.move x)) [] (.normal (σ.set to (.recd (pre ++ [f])))) :=
+      have hlt : p < cur.length := hp p (by simp)
+      have hset : setPayload (σ to) p f = some (.recd (cur.set p f)) := by
+        rw [hσ]; simp [setPayload, hlt]
+      have s1 : ExecS P σ (.assignField to p (.move x)) [] (.normal (σ.set to (.recd (cur.set p f)))) :=
         .assignField (EvalV.pure (by simp [evalValue, hx])) hset
-      have hmap : xs.map (σ.set to (.recd (pre ++ [f]))) = fs.map Val.int := by
+      have hmap : xs.map (σ.set to (.recd (cur.set p f))) = fs.map Val.int := by
         rw [← hm']
         apply List.map_congr_left
         intro y hy
         exact set_other _ _ (hne y (by simp [hy]))
-      obtain ⟨σ1, hx1, hv1, hk1⟩ := exec_storeFieldsR (P := P) (to := to) xs fs (pre ++ [f]) (σ.set to (.recd (pre ++ [f])))
-        (by simp) (fun y hy => hne y (by simp [hy])) hmap
-      refine ⟨σ1, ?_, by simpa using hv1, fun y hy => by rw [hk1 y hy, set_other _ _ hy]⟩
+      obtain ⟨σ1, hx1, hv1, hk1⟩ := exec_storeFieldsAt (P := P) (to := to) ps xs fs (cur.set p f) (σ.set to (.recd (cur.set p f)))
+        (by simp [Store.set]) (fun q hq => by simpa using hp q (by simp [hq])) (fun y hy => hne y (by simp [hy])) hmap
+      refine ⟨σ1, ?_, by simpa [arrangeFrom] using hv1, fun y hy => by rw [hk1 y hy, set_other _ _ hy]⟩
       have := ExecC.cons s1 hx1
-      simpa [storeFields] using this
+      simpa [storeFieldsAt] using this
 
 /-! ### lists -/
 
@@ -911,6 +948,8 @@ theorem lowerE_moveLower (e : Expr) (c : Nat) (code : Code) (x : Var) (c' : Nat)
   | «while» cnd b => simp [lowerE, Option.bind_eq_some_iff] at h
   | assign y e1 => simp [lowerE, Option.bind_eq_some_iff] at h
   | cassign op y e1 => simp [lowerE, Option.bind_eq_some_iff] at h
+  | assignF y i e1 => simp [lowerE, Option.bind_eq_some_iff] at h
+  | cassignF op y i e1 => simp [lowerE, Option.bind_eq_some_iff] at h
   | ret e1 => simp [lowerE, Option.bind_eq_some_iff] at h
   | accept e1 => simp [lowerE, Option.bind_eq_some_iff] at h
   | reject e1 => simp [lowerE, Option.bind_eq_some_iff] at h
@@ -962,9 +1001,9 @@ theorem lowerE_moveLower (e : Expr) (c : Nat) (code : Code) (x : Var) (c' : Nat)
     obtain ⟨ca, xs, c1, h1, _, rfl, _⟩ := h
     have ⟨m1, _⟩ := lowerCtorArgs_mono args c ca xs c1 h1
     exact ⟨c1, rfl, m1⟩
-  | record fs =>
-    simp [lowerE, Option.bind_eq_some_iff] at h
-    obtain ⟨ca, xs, c1, h1, _, rfl, _⟩ := h
+  | record perm fs =>
+    obtain ⟨ca, xs, c1, h1, _, _, hv, _⟩ := lowerE_record_inv h
+    cases hv
     have ⟨m1, _⟩ := lowerCtorArgs_mono fs c ca xs c1 h1
     exact ⟨c1, rfl, m1⟩
   | list es =>
